@@ -632,29 +632,11 @@ impl ToplevelDefinition {
     }
 
     pub(crate) fn apply_tagging_environment(&mut self, environment: &TaggingEnvironment) {
-        if let (env, ToplevelDefinition::Type(ty)) = (environment, self) {
-            ty.tag = ty.tag.as_ref().map(|t| AsnTag {
-                environment: env + &t.environment,
-                tag_class: t.tag_class,
-                id: t.id,
-            });
-            match &mut ty.ty {
-                ASN1Type::Sequence(s) | ASN1Type::Set(s) => s.members.iter_mut().for_each(|m| {
-                    m.tag = m.tag.as_ref().map(|t| AsnTag {
-                        environment: env + &t.environment,
-                        tag_class: t.tag_class,
-                        id: t.id,
-                    });
-                }),
-                ASN1Type::Choice(c) => c.options.iter_mut().for_each(|o| {
-                    o.tag = o.tag.as_ref().map(|t| AsnTag {
-                        environment: env + &t.environment,
-                        tag_class: t.tag_class,
-                        id: t.id,
-                    });
-                }),
-                _ => (),
+        if let ToplevelDefinition::Type(ty) = self {
+            if let Some(tag) = ty.tag.as_mut() {
+                tag.environment = environment + &tag.environment;
             }
+            ty.ty.apply_tagging_environment(environment);
         }
     }
 
@@ -833,6 +815,32 @@ pub enum ASN1Type {
 }
 
 impl ASN1Type {
+    /// Applies the tagging default of the enclosing module to all tags that
+    /// are part of `self`, regardless of their nesting depth.
+    pub(crate) fn apply_tagging_environment(&mut self, environment: &TaggingEnvironment) {
+        match self {
+            ASN1Type::Sequence(s) | ASN1Type::Set(s) => s.members.iter_mut().for_each(|m| {
+                if let Some(tag) = m.tag.as_mut() {
+                    tag.environment = environment + &tag.environment;
+                }
+                m.ty.apply_tagging_environment(environment);
+            }),
+            ASN1Type::Choice(c) => c.options.iter_mut().for_each(|o| {
+                if let Some(tag) = o.tag.as_mut() {
+                    tag.environment = environment + &tag.environment;
+                }
+                o.ty.apply_tagging_environment(environment);
+            }),
+            ASN1Type::SequenceOf(s) | ASN1Type::SetOf(s) => {
+                if let Some(tag) = s.element_tag.as_mut() {
+                    tag.environment = environment + &tag.environment;
+                }
+                s.element_type.apply_tagging_environment(environment);
+            }
+            _ => (),
+        }
+    }
+
     pub fn as_str(&self) -> Cow<'_, str> {
         match self {
             ASN1Type::Null => Cow::Borrowed(NULL),
